@@ -12,7 +12,7 @@ Not decided: behaviour under all permutations / missing / extra patterns of the 
 """
 import re
 from ..mir import AnchorLost
-from ..util import df_of, fn_short, in_set, backward_slice, operand_path, path_last
+from ..util import norm_cmps, df_of, fn_short, in_set, backward_slice, operand_path, path_last
 from .c09 import rpo_index
 
 S = "alloc::string::String"
@@ -207,7 +207,7 @@ def r2(ctx, facts, sers):
             r.fail("done-sites:%s" % name, "serialize_field of %s never reports Done" % name, b.span)
         for i, (bb, j, s) in enumerate(dones):
             st = df.state_before_stmt(bb, j) or {}
-            ok = any(k[0] == "bin" and k[1] == "Eq" and ("const", 0) in (k[2], k[3]) and "remaining_count" in df.fmt_expr(k) and in_set(v, {1}) for k, v in st.items())
+            ok = any(o == "Eq" and y == ("const", 0) and t == 1 and "remaining_count" in df.fmt_expr(x) for o, x, y, t in norm_cmps(st))
             r.instance("done-only-if-nothing-remains:%s#%d" % (name, i), ok, "FieldStatus::Done must be reported only where self.remaining_count == 0 (a parent that flattens this struct stops expecting its columns); state: %s" % df.fmt_state(st)[:300], b.stmt_span(s))
         # each decrement: flag tested false, then set true
         decs = [(bb, s) for bb in sorted(b.live_blocks) for s in b.stmts(bb) if s[0] == "A" and s[2][0] == "bin" and s[2][1].startswith("Sub") and "remaining_count" in b.fmt_rv(s[2])]
